@@ -33,6 +33,15 @@ def Dict.init (size prevCap : Nat) : Dict :=
   let len := min cap size
   { size := size, hist := Array.replicate len 0, cap := cap, allocs := allocs }
 
+/-- `Init` on a decoder that was used before, keeping what Go keeps: the backing array of the
+    previous stream (`prevCap` bytes, contents `stale` - whatever the earlier stream left there,
+    read as 0 where the model does not know them) is re-sliced, not cleared. -/
+def Dict.initOver (size prevCap : Nat) (stale : Array UInt8) : Dict :=
+  let (cap, allocs) := if prevCap = 0 then (initSize, [initSize]) else (prevCap, [])
+  let len := min cap size
+  { size := size, hist := Array.ofFn (n := len) (fun i => if prevCap = 0 then 0 else stale.getD i.val 0),
+    cap := cap, allocs := allocs }
+
 def Dict.histSize (d : Dict) : Nat := if d.full then d.size else d.wrPos
 def Dict.availSize (d : Dict) : Nat := d.hist.size - d.wrPos
 
